@@ -66,7 +66,8 @@ Proof.
     split.
     { intros Harr. rewrite Harr in S2. cbn [orb] in S2. now apply Nat.eqb_eq in S2. }
     destruct (p_nodef (port_at a i)) eqn:End.
-    + split; [intros Hd; discriminate|]. intros _. now apply Nat.eqb_eq in S3.
+    + split; [intros Hd; discriminate|]. intros _. apply andb_true_iff in S3 as [S3 S4].
+      split; [now apply Nat.eqb_eq in S3 | exact (is_none_eq _ _ S4)].
     + split; [|intros Hd; discriminate]. intros _ selv.
       apply andb_true_iff in S3 as [Sd St]. apply Nat.eqb_eq in Sd. rewrite forallb_forall in St.
       unfold default_with. destruct selv as [v|]; [|exact Sd].
